@@ -1,6 +1,323 @@
-//! C18 — not implemented yet.
-use mc_core::Ctx;
+//! C18 — pruning never removes nodes of the current state tree.
+//!
+//! Two real tree stores run in lock-step on every explored commit history: A = `TypedInMemoryTreeStore`
+//! with pruning enabled (stale parts are removed the moment they are reported), B = the same without
+//! pruning (keeps every node; `stale_part_buffer` records what each commit reported).
+//! After every commit:
+//!  (1) A is walked from the current root through all three tiers by the harness's own traversal over
+//!      `tree_nodes` (child links `TreeChildEntry{nibble, version}`, tier links leaf payload + key
+//!      prefix): every referenced node must be stored and the substate leaves reached must be exactly
+//!      the model's (key, H(value)); `list_substate_hashes_at_version(A, v)` must not panic and must
+//!      equal the model;
+//!  (2) every part reported stale by this commit (taken from B; `Subtree` expanded through B's nodes)
+//!      must be unreachable from the root produced by this commit, and the union of everything reported
+//!      stale so far on the path must be unreachable from it as well ("and from every later root").
+use crate::alphabet::*;
+use crate::c17::{effect_class, listing_of, show_listing, HashListing};
+use crate::refmerkle;
+use crate::treekeys;
+use mc_core::{bfs, BfsStats, Ctx, Level, Machine};
+use radix_substate_store_impls::state_tree::put_at_next_version;
+use radix_substate_store_impls::state_tree::tree_store::*;
+use radix_substate_store_interface::interface::*;
+use serde_json::json;
+use std::collections::{BTreeMap, BTreeSet};
 
-pub fn run(_ctx: Ctx) -> ! {
-    mc_core::machinery_error("C18: not implemented")
+const TIER_SEPARATOR: u8 = b'_';
+
+/// Own traversal. Returns (reachable node keys, substate leaves) or the first missing node.
+pub fn walk(nodes: &dyn Fn(&StoredTreeNodeKey) -> Option<TreeNode>, version: u64) -> Result<(BTreeSet<StoredTreeNodeKey>, HashListing), String> {
+    let mut reach = BTreeSet::new();
+    let mut listing = HashListing::new();
+    if version == 0 {
+        return Ok((reach, listing));
+    }
+    // entity tier: unprefixed
+    let entity_leaves = walk_tier(nodes, &[], version, &mut reach)?;
+    for (entity_key, _hash, partition_root_version) in entity_leaves {
+        let mut prefix = entity_key.clone();
+        prefix.push(TIER_SEPARATOR);
+        let partition_leaves = walk_tier(nodes, &prefix, partition_root_version, &mut reach)?;
+        for (pkey, _hash, substate_root_version) in partition_leaves {
+            if pkey.len() != 1 {
+                return Err(format!("partition-tier leaf key of {} bytes under entity {}", pkey.len(), mc_core::hex(&entity_key)));
+            }
+            let mut prefix2 = prefix.clone();
+            prefix2.push(pkey[0]);
+            prefix2.push(TIER_SEPARATOR);
+            let substate_leaves = walk_tier(nodes, &prefix2, substate_root_version, &mut reach)?;
+            let e = listing.entry((entity_key.clone(), pkey[0])).or_default();
+            for (sk, h, _) in substate_leaves {
+                e.insert(sk, h);
+            }
+        }
+    }
+    Ok((reach, listing))
+}
+
+/// Walk one tier tree rooted at (root_version, prefix). Returns leaves as (full key bytes, value hash, payload version).
+fn walk_tier(
+    nodes: &dyn Fn(&StoredTreeNodeKey) -> Option<TreeNode>,
+    prefix: &[u8],
+    root_version: u64,
+    reach: &mut BTreeSet<StoredTreeNodeKey>,
+) -> Result<Vec<(Vec<u8>, radix_common::prelude::Hash, u64)>, String> {
+    let mut out = vec![];
+    let root = StoredTreeNodeKey::new(root_version, NibblePath::new_even(prefix.to_vec()));
+    let mut stack = vec![root];
+    let prefix_nibbles = prefix.len() * 2;
+    while let Some(key) = stack.pop() {
+        let Some(node) = nodes(&key) else {
+            return Err(format!("node (version {}, path {:?}) is referenced from the current root but not stored", key.version(), key.nibble_path()));
+        };
+        reach.insert(key.clone());
+        match node {
+            TreeNodeV1::Internal(internal) => {
+                for c in internal.children.iter().rev() {
+                    stack.push(key.gen_child_node_key(c.version, c.nibble));
+                }
+            }
+            TreeNodeV1::Leaf(leaf) => {
+                let full = NibblePath::from_iter(key.nibble_path().nibbles().skip(prefix_nibbles).chain(leaf.key_suffix.nibbles()));
+                if full.num_nibbles() % 2 != 0 {
+                    return Err(format!("leaf under (version {}, path {:?}) has an odd number of key nibbles", key.version(), key.nibble_path()));
+                }
+                out.push((full.bytes().to_vec(), leaf.value_hash, leaf.last_hash_change_version));
+            }
+            TreeNodeV1::Null => {
+                if key.nibble_path().num_nibbles() != prefix_nibbles {
+                    return Err("Null node below a tier root".into());
+                }
+            }
+        }
+    }
+    out.sort();
+    Ok(out)
+}
+
+/// Node keys covered by a reported stale part, expanded through the complete (non-pruning) store.
+fn expand(b: &TypedInMemoryTreeStore, part: &StaleTreePart) -> Vec<StoredTreeNodeKey> {
+    match part {
+        StaleTreePart::Node(k) => vec![k.clone()],
+        StaleTreePart::Subtree(k) => {
+            let mut out = vec![];
+            let mut stack = vec![k.clone()];
+            while let Some(key) = stack.pop() {
+                let node = b.tree_nodes.borrow().get(&key).cloned();
+                out.push(key.clone());
+                if let Some(TreeNodeV1::Internal(internal)) = node {
+                    for c in internal.children {
+                        stack.push(key.gen_child_node_key(c.version, c.nibble));
+                    }
+                }
+            }
+            out
+        }
+    }
+}
+
+struct St {
+    hist: Vec<u16>,
+    a: TypedInMemoryTreeStore,
+    b: TypedInMemoryTreeStore,
+    version: u64,
+    model: RefDb,
+    dead: BTreeSet<StoredTreeNodeKey>,
+}
+
+struct M18 {
+    commits: Vec<Commit>,
+    updates: Vec<DatabaseUpdates>,
+    offset: usize,
+}
+
+static PRUNED_NODES: std::sync::atomic::AtomicU64 = std::sync::atomic::AtomicU64::new(0);
+static STALE_SUBTREES: std::sync::atomic::AtomicU64 = std::sync::atomic::AtomicU64::new(0);
+
+impl Machine for M18 {
+    type Op = OpIx;
+    type St = St;
+
+    fn init(&self) -> St {
+        St { hist: vec![], a: TypedInMemoryTreeStore::new().with_pruning_enabled(), b: TypedInMemoryTreeStore::new(), version: 0, model: RefDb::default(), dead: BTreeSet::new() }
+    }
+
+    fn ops(&self, _st: &St, _depth: usize) -> Vec<OpIx> {
+        (0..self.commits.len()).map(|i| OpIx((i + self.offset) as u16)).collect()
+    }
+
+    fn fork(&self, st: &St) -> Option<St> {
+        Some(St { hist: st.hist.clone(), a: st.a.clone(), b: st.b.clone(), version: st.version, model: st.model.clone(), dead: st.dead.clone() })
+    }
+
+    fn step(&self, st: &mut St, op: &OpIx) -> Result<String, (String, String)> {
+        let i = op.0 as usize - self.offset;
+        let commit = &self.commits[i];
+        let du = &self.updates[i];
+        st.hist.push(i as u16);
+        let before = st.model.clone();
+        st.model.apply(commit);
+        let cur = Some(st.version).filter(|v| *v > 0);
+        let root_a = match mc_core::catch(|| put_at_next_version(&st.a, cur, du)) {
+            Ok(r) => r,
+            Err(p) => return Err(("commit-on-pruned-store-panics".into(), format!("put_at_next_version on the pruning store panicked at {}: {p}", mc_core::last_panic_location()))),
+        };
+        let root_b = put_at_next_version(&st.b, cur, du);
+        st.version += 1;
+        if root_a != root_b {
+            return Err(("pruned-root-differs".into(), format!("root with pruning {} vs without {}", mc_core::hex(&root_a.0), mc_core::hex(&root_b.0))));
+        }
+
+        // (1) the current tree of the pruning store is complete
+        let a_nodes = |k: &StoredTreeNodeKey| st.a.tree_nodes.borrow().get(k).cloned();
+        let (reach_a, listing_a) = walk(&a_nodes, st.version).map_err(|e| ("reachable-node-pruned".to_string(), e))?;
+        let want = refmerkle::substate_hashes(&st.model);
+        if listing_a != want {
+            return Err(("current-tree-leaves".into(), format!("leaves reachable in the pruning store {} but the substates are {}", show_listing(&listing_a), show_listing(&want))));
+        }
+        match mc_core::catch(|| listing_of(&st.a, st.version)) {
+            Ok(l) if l == want => {}
+            Ok(l) => return Err(("current-tree-listing".into(), format!("list_substate_hashes_at_version on the pruning store gives {} but the substates are {}", show_listing(&l), show_listing(&want)))),
+            Err(p) => return Err(("current-tree-unreadable".into(), format!("list_substate_hashes_at_version on the pruning store panicked: {p}"))),
+        }
+
+        // (2) everything reported stale is dead
+        let b_nodes = |k: &StoredTreeNodeKey| st.b.tree_nodes.borrow().get(k).cloned();
+        let (reach_b, _) = walk(&b_nodes, st.version).map_err(|e| ("machinery:complete-store-walk".to_string(), e))?;
+        if reach_a != reach_b {
+            return Err(("reachable-sets-differ".into(), "the pruning and the non-pruning store reach different node sets from the same root".into()));
+        }
+        let reported: Vec<StaleTreePart> = std::mem::take(&mut *st.b.stale_part_buffer.borrow_mut());
+        let mut subtrees = 0;
+        for part in &reported {
+            if matches!(part, StaleTreePart::Subtree(_)) {
+                subtrees += 1;
+            }
+            for k in expand(&st.b, part) {
+                if reach_b.contains(&k) {
+                    return Err((
+                        "stale-part-still-reachable".into(),
+                        format!("commit reported {:?} as stale but node (version {}, path {:?}) is reachable from the root it produced (version {})", part, k.version(), k.nibble_path(), st.version),
+                    ));
+                }
+                st.dead.insert(k);
+            }
+        }
+        if let Some(k) = st.dead.iter().find(|k| reach_b.contains(*k)) {
+            return Err((
+                "stale-part-reachable-from-later-root".into(),
+                format!("node (version {}, path {:?}) was reported stale by an earlier commit but is reachable from the root of version {}", k.version(), k.nibble_path(), st.version),
+            ));
+        }
+        STALE_SUBTREES.fetch_add(subtrees, std::sync::atomic::Ordering::Relaxed);
+        PRUNED_NODES.fetch_add(reported.len() as u64, std::sync::atomic::Ordering::Relaxed);
+        let stale_kind = if subtrees > 0 {
+            "+subtree-stale"
+        } else if reported.is_empty() {
+            "+nothing-stale"
+        } else {
+            "+nodes-stale"
+        };
+        let c = if commit.0.len() == 1 { effect_class(&before, &st.model, &commit.0[0]) } else { format!("multi-partition:{}", if st.model.parts.is_empty() { "state-emptied" } else if st.model.len() > before.len() { "grew" } else if st.model.len() < before.len() { "shrank" } else { "same-size" }) };
+        Ok(format!("{c}{stale_kind}"))
+    }
+
+    fn fingerprint(&self, st: &St) -> Vec<u8> {
+        // The reachable tree is determined by the substate map up to node versions; versions are fresh
+        // per commit, so behaviour of later commits depends on the map only.
+        mc_core::fp128(&st.model.canonical_bytes())
+    }
+}
+
+/// C17's atoms plus the macro commits: wipe an entity (by resets / by deleting every key) and re-create it.
+fn alphabet(full: bool) -> Vec<Commit> {
+    let mut out: Vec<Commit> = treekeys::atoms(false, full).into_iter().map(Commit::one).collect();
+    let e = treekeys::entities();
+    let ks = treekeys::sort_keys();
+    let ps = treekeys::partitions();
+    for n in [&e[0], &e[1]] {
+        // wipe by resetting every partition of the entity (present or not)
+        out.push(Commit(ps.iter().map(|p| Atom::new(n, *p, PU::Reset(vec![]))).collect()));
+        // wipe by deleting every key of every partition
+        out.push(Commit(ps.iter().map(|p| Atom::new(n, *p, PU::Delta(ks.iter().map(|k| (k.clone(), None)).collect()))).collect()));
+        // re-create: two partitions, keys sharing a long prefix
+        out.push(Commit(vec![
+            Atom::new(n, ps[0], PU::Delta(vec![(ks[0].clone(), Some(treekeys::V1.to_vec())), (ks[1].clone(), Some(treekeys::V2.to_vec()))])),
+            Atom::new(n, ps[1], PU::Reset(vec![(ks[2].clone(), treekeys::V1.to_vec())])),
+        ]));
+    }
+    // two-partition commits across entities
+    out.push(Commit(vec![Atom::new(&e[0], ps[0], PU::Delta(vec![(ks[0].clone(), None)])), Atom::new(&e[1], ps[0], PU::Delta(vec![(ks[3].clone(), Some(treekeys::V1.to_vec()))]))]));
+    out.push(Commit(vec![Atom::new(&e[0], ps[0], PU::Reset(vec![])), Atom::new(&e[2], ps[2], PU::Reset(vec![(ks[1].clone(), treekeys::V2.to_vec())]))]));
+    out
+}
+
+pub fn run(ctx: Ctx) -> ! {
+    if let Some(case) = ctx.read_replay_case() {
+        replay(ctx, case);
+    }
+    let plan: Vec<(bool, usize, &str)> = if ctx.quick() { vec![(false, 4, "core")] } else { vec![(false, 6, "core"), (true, 4, "all-updates")] };
+    let mut table = vec![];
+    let mut offsets = vec![];
+    for (full, _, _) in &plan {
+        offsets.push(table.len());
+        table.extend(alphabet(*full));
+    }
+    install_table(table);
+    let mut total = BfsStats::default();
+    let mut exhaustive = true;
+    let mut searches = serde_json::Map::new();
+    for (pi, (full, depth, name)) in plan.iter().enumerate() {
+        let commits = alphabet(*full);
+        let updates = commits.iter().map(|c| c.to_database_updates()).collect();
+        let m = M18 { commits, updates, offset: offsets[pi] };
+        let s = bfs(&ctx, &m, name, *depth, 30_000_000, ctx.pick(45.0, 600.0));
+        if s.capped {
+            exhaustive = false;
+        }
+        searches.insert(format!("{name}:depth{depth}"), json!({"alphabet": m.commits.len(), "states": s.states, "transitions": s.transitions, "depth_completed": s.depth_completed, "capped": s.capped, "per_depth_new_states": s.per_depth_states}));
+        total.add(&s);
+    }
+    let mut cov = total.coverage();
+    cov.insert("searches".into(), serde_json::Value::Object(searches));
+    cov.insert("stale_parts_checked".into(), json!(PRUNED_NODES.load(std::sync::atomic::Ordering::Relaxed)));
+    cov.insert("stale_subtrees_checked".into(), json!(STALE_SUBTREES.load(std::sync::atomic::Ordering::Relaxed)));
+    let nontrivial = total.states;
+    ctx.finish(
+        Level::ModelChecking,
+        "a state is a distinct substate map; a transition is one commit applied to a pruning and a non-pruning real tree store in lock-step, followed by the harness's own three-tier reachability walk of the pruning store, the listing API, and the check that every stale part reported on the path so far is unreachable; non-trivial = distinct substate maps reached",
+        nontrivial,
+        exhaustive,
+        cov,
+        &[
+            "keys respect the tree's documented precondition (equal-length keys per tier)",
+            "dedup by substate map: node versions are fresh per commit, so later behaviour depends on the reachable tree, which the map determines up to versions; the accumulated dead set is that of the first history found",
+            "nodes that are neither reachable nor reported stale (e.g. Null roots of emptied tiers) are leaks, not covered by the statement, and ignored",
+        ],
+    )
+}
+
+fn replay(ctx: Ctx, case: serde_json::Value) -> ! {
+    let hist = history_from_case(&case);
+    install_table(hist.clone());
+    let updates = hist.iter().map(|c| c.to_database_updates()).collect();
+    let m = M18 { commits: hist.clone(), updates, offset: 0 };
+    let mut st = m.init();
+    for i in 0..hist.len() {
+        match mc_core::catch(|| m.step(&mut st, &OpIx(i as u16))) {
+            Ok(Ok(c)) => println!("step {i} {:?}: ok ({c}); pruning store holds {} nodes, complete store {}", hist[i], st.a.tree_nodes.borrow().len(), st.b.tree_nodes.borrow().len()),
+            Ok(Err((k, w))) => {
+                println!("step {i} {:?}: VIOLATION {k}: {w}", hist[i]);
+                ctx.violation(k, w, case.clone());
+                break;
+            }
+            Err(p) => {
+                println!("step {i} {:?}: PANIC {p}", hist[i]);
+                ctx.violation(format!("panic@{}", mc_core::last_panic_location()), p, case.clone());
+                break;
+            }
+        }
+    }
+    let _: BTreeMap<u8, u8> = BTreeMap::new();
+    ctx.finish(Level::ModelChecking, "replay", 0, false, serde_json::Map::new(), &[])
 }
